@@ -1,20 +1,744 @@
+// verif is the driver: it runs simulated executions of one property in worker processes (one
+// simulation per OS process at a time), minimises and replays violations and writes the evidence.
 package main
 
 import (
+	"encoding/json"
+	"flag"
 	"fmt"
+	"io"
+	stdlog "log"
+	"os"
+	"os/exec"
+	"path/filepath"
+	"runtime"
+	"runtime/debug"
+	"sort"
+	"strconv"
+	"strings"
+	"time"
 
-	_ "github.com/anishathalye/porcupine"
-	_ "github.com/godaddy/asherah/go/appencryption"
-	_ "github.com/godaddy/asherah/go/appencryption/pkg/crypto/aead"
-	_ "github.com/godaddy/asherah/go/appencryption/pkg/kms"
-	_ "github.com/godaddy/asherah/go/appencryption/pkg/persistence"
-	_ "github.com/godaddy/asherah/go/appencryption/plugins/aws-v1/kms"
-	_ "github.com/godaddy/asherah/go/appencryption/plugins/aws-v1/persistence"
-	_ "github.com/godaddy/asherah/go/appencryption/plugins/aws-v2/dynamodb/metastore"
-	_ "github.com/godaddy/asherah/go/appencryption/plugins/aws-v2/kms"
-	_ "github.com/godaddy/asherah/go/securememory/memguard"
-	_ "github.com/godaddy/asherah/go/securememory/protectedmemory"
-	_ "github.com/godaddy/asherah/server/go/pkg/server"
+	"verif/sim/props"
+	"verif/sim/simrt"
+	"verif/sim/world"
 )
 
-func main() { fmt.Println("ok") }
+func main() {
+	stdlog.SetOutput(io.Discard)
+	if len(os.Args) < 2 {
+		fmt.Fprintln(os.Stderr, "usage: verif check|worker|replay|list ...")
+		os.Exit(2)
+	}
+	switch os.Args[1] {
+	case "check":
+		os.Exit(cmdCheck(os.Args[2:]))
+	case "worker":
+		os.Exit(cmdWorker(os.Args[2:]))
+	case "replay":
+		os.Exit(cmdReplay(os.Args[2:]))
+	case "list":
+		for _, id := range props.IDs() {
+			fmt.Println(id)
+		}
+	default:
+		fmt.Fprintln(os.Stderr, "unknown subcommand", os.Args[1])
+		os.Exit(2)
+	}
+}
+
+// ---------------------------------------------------------------------------------------------
+
+func propHash(id string) uint64 {
+	var h uint64 = 1469598103934665603
+	for i := 0; i < len(id); i++ {
+		h = (h ^ uint64(id[i])) * 1099511628211
+	}
+	return h
+}
+
+func runSeed(verifSeed uint64, prop string, i int) uint64 {
+	return simrt.SplitMix64(verifSeed*0x9E3779B97F4A7C15 ^ propHash(prop) ^ simrt.SplitMix64(uint64(i)+1))
+}
+
+// ReplayFile is the self-contained description of one failing execution.
+type ReplayFile struct {
+	Property  string          `json:"property"`
+	VerifSeed uint64          `json:"verif_seed"`
+	RunIndex  int             `json:"run_index"`
+	RunSeed   uint64          `json:"run_seed"`
+	Tier      string          `json:"tier"`
+	TreeHash  string          `json:"tree_hash"`
+	Tape      []uint32        `json:"tape"`
+	Violation world.Violation `json:"violation"`
+	LogHash   string          `json:"event_log_hash"`
+	Decoded   []string        `json:"decoded,omitempty"`
+	OrigTape  int             `json:"original_tape_length"`
+}
+
+// WorkerSummary is what one worker reports.
+type WorkerSummary struct {
+	Runs      int            `json:"runs"`
+	SweepRuns int            `json:"sweep_runs"`
+	SweepTotal int           `json:"sweep_total"`
+	Ops       int            `json:"ops"`
+	Steps     int            `json:"steps"`
+	Switches  int            `json:"switches"`
+	SimTimeNs int64          `json:"sim_time_ns"`
+	Faults    map[string]int `json:"faults"`
+	Probes    map[string]int `json:"probes"`
+	Oracle    map[string]int `json:"oracle"`
+	Classes   []string       `json:"classes"`
+	Traces    []uint64       `json:"traces"`
+	Pairs     []string       `json:"pairs"`
+	Nontrivial int           `json:"nontrivial"`
+	Infra     int            `json:"infra"`
+	InfraMsgs []string       `json:"infra_msgs"`
+	Samples   []any          `json:"samples"`
+	Seeds     []uint64       `json:"seeds"`
+	Violations []FoundViolation `json:"violations"`
+	WallS     float64        `json:"wall_s"`
+}
+
+// FoundViolation is a violation with its replay file.
+type FoundViolation struct {
+	Violation world.Violation `json:"violation"`
+	Replay    string          `json:"replay"`
+	Known     bool            `json:"known"`
+	Count     int             `json:"count"`
+}
+
+type knownFindings struct {
+	Findings []struct {
+		Property  string `json:"property"`
+		Signature string `json:"signature"`
+		What      string `json:"what"`
+		Replay    string `json:"replay"`
+	} `json:"findings"`
+	Fixed []struct {
+		Property  string `json:"property"`
+		Commit    string `json:"commit"`
+		Signature string `json:"signature"`
+		What      string `json:"what"`
+	} `json:"fixed"`
+}
+
+func loadKnown(verifDir string) knownFindings {
+	var k knownFindings
+	b, err := os.ReadFile(filepath.Join(verifDir, "known_findings.json"))
+	if err == nil {
+		if err := json.Unmarshal(b, &k); err != nil {
+			fmt.Fprintln(os.Stderr, "verif: known_findings.json does not parse:", err)
+			os.Exit(2)
+		}
+	}
+	return k
+}
+
+func (k knownFindings) match(prop, sig string) (string, bool) {
+	for _, f := range k.Findings {
+		if f.Property != prop {
+			continue
+		}
+		if f.Signature == sig {
+			return f.What, true
+		}
+	}
+	return "", false
+}
+
+// ---------------------------------------------------------------------------------------------
+// worker
+
+func execRun(p *props.Property, tape *simrt.Tape, o props.Opts) (out props.Outcome) {
+	defer func() {
+		if r := recover(); r != nil {
+			out.Infra = &simrt.Failure{Kind: simrt.FailHarness, Msg: fmt.Sprint(r), Stack: string(debug.Stack())}
+		}
+	}()
+	return p.Run(tape, o)
+}
+
+func cmdWorker(args []string) int {
+	fs := flag.NewFlagSet("worker", flag.ExitOnError)
+	propID := fs.String("prop", "", "")
+	tier := fs.String("tier", "quick", "")
+	seed := fs.Uint64("seed", 1, "")
+	index := fs.Int("index", 0, "")
+	stride := fs.Int("stride", 1, "")
+	budget := fs.Duration("budget", 20*time.Second, "")
+	maxRuns := fs.Int("maxruns", 0, "")
+	outPath := fs.String("out", "", "")
+	verifDir := fs.String("verif", "/verif", "")
+	treeHash := fs.String("tree", "", "")
+	fs.Parse(args)
+	p := props.Registry[*propID]
+	if p == nil {
+		fmt.Fprintln(os.Stderr, "unknown property", *propID)
+		return 2
+	}
+	debug.SetGCPercent(-1)
+	known := loadKnown(*verifDir)
+	start := time.Now()
+	sum := WorkerSummary{Faults: map[string]int{}, Probes: map[string]int{}, Oracle: map[string]int{}}
+	classes := map[string]bool{}
+	traces := map[uint64]bool{}
+	pairs := map[string]bool{}
+	knownSeen := map[string]*FoundViolation{}
+	var sweep [][]uint32
+	if p.Sweep != nil {
+		sweep = p.Sweep(*tier)
+	}
+	sum.SweepTotal = len(sweep)
+	opts := props.Opts{Tier: *tier}
+	hardStop := start.Add(*budget * 4)
+	for i := *index; ; i += *stride {
+		isSweep := i < len(sweep)
+		if !isSweep && time.Since(start) > *budget {
+			break
+		}
+		if isSweep && time.Now().After(hardStop) {
+			sum.Infra++
+			sum.InfraMsgs = append(sum.InfraMsgs, "sweep did not finish within 4x budget")
+			break
+		}
+		if *maxRuns > 0 && sum.Runs >= *maxRuns {
+			break
+		}
+		rs := runSeed(*seed, p.ID, i)
+		var tape *simrt.Tape
+		if isSweep {
+			tape = simrt.PrefixTape(rs, sweep[i])
+			sum.SweepRuns++
+		} else {
+			tape = simrt.NewTape(rs)
+		}
+		out := execRun(p, tape, opts)
+		sum.Runs++
+		if sum.Runs%64 == 0 {
+			runtime.GC()
+		}
+		if len(sum.Seeds) < 8 {
+			sum.Seeds = append(sum.Seeds, rs)
+		}
+		sum.Ops += out.Stats.Ops
+		sum.Steps += out.Stats.Steps
+		sum.Switches += out.Stats.Switches
+		sum.SimTimeNs += int64(out.Stats.SimTime)
+		for k, v := range out.Stats.Faults {
+			sum.Faults[k] += v
+		}
+		for k, v := range out.Stats.Probes {
+			sum.Probes[k] += v
+		}
+		for k, v := range out.Stats.Oracle {
+			sum.Oracle[k] += v
+		}
+		if out.Stats.Nontrivial {
+			sum.Nontrivial++
+			if len(classes) < 20000 {
+				classes[out.Stats.Class] = true
+			}
+		}
+		if len(traces) < 200000 {
+			traces[out.Stats.TraceHash] = true
+		}
+		for _, pr := range out.Stats.Pairs {
+			pairs[pr] = true
+		}
+		if out.Stats.Sample != nil && len(sum.Samples) < 2 && (out.Stats.Nontrivial || sum.Runs > 50) {
+			sum.Samples = append(sum.Samples, out.Stats.Sample)
+		}
+		if out.Infra != nil {
+			sum.Infra++
+			if len(sum.InfraMsgs) < 5 {
+				sum.InfraMsgs = append(sum.InfraMsgs, fmt.Sprintf("run %d seed %d: %s: %s\n%s", i, rs, out.Infra.Kind, out.Infra.Msg, out.Infra.Stack))
+			}
+		}
+		stop := false
+		for _, v := range out.Viols {
+			if _, ok := known.match(p.ID, v.Signature); ok {
+				if kv := knownSeen[v.Signature]; kv != nil {
+					kv.Count++
+					continue
+				}
+				fv := &FoundViolation{Violation: v, Known: true, Count: 1}
+				fv.Replay = minimiseAndWrite(p, tape.Used(), v, opts, *verifDir, *seed, i, rs, *treeHash, 150)
+				knownSeen[v.Signature] = fv
+				continue
+			}
+			fv := FoundViolation{Violation: v, Count: 1}
+			fv.Replay = minimiseAndWrite(p, tape.Used(), v, opts, *verifDir, *seed, i, rs, *treeHash, 1500)
+			sum.Violations = append(sum.Violations, fv)
+			stop = true
+			break
+		}
+		if stop {
+			break
+		}
+	}
+	for _, kv := range knownSeen {
+		sum.Violations = append(sum.Violations, *kv)
+	}
+	for c := range classes {
+		sum.Classes = append(sum.Classes, c)
+	}
+	sort.Strings(sum.Classes)
+	for h := range traces {
+		sum.Traces = append(sum.Traces, h)
+	}
+	for pr := range pairs {
+		sum.Pairs = append(sum.Pairs, pr)
+	}
+	sum.WallS = time.Since(start).Seconds()
+	b, _ := json.Marshal(sum)
+	if *outPath == "" {
+		os.Stdout.Write(b)
+		return 0
+	}
+	if err := os.WriteFile(*outPath, b, 0o644); err != nil {
+		fmt.Fprintln(os.Stderr, err)
+		return 2
+	}
+	return 0
+}
+
+// replayOnce replays a tape and reports whether the violation with signature sig recurs.
+func replayOnce(p *props.Property, vals []uint32, sig string, o props.Opts) (bool, props.Outcome, []uint32) {
+	tape := simrt.ReplayTape(vals)
+	out := execRun(p, tape, o)
+	for _, v := range out.Viols {
+		if v.Signature == sig {
+			return true, out, tape.Used()
+		}
+	}
+	return false, out, nil
+}
+
+// minimise shrinks the tape while the same violation signature recurs.
+func minimise(p *props.Property, vals []uint32, sig string, o props.Opts, maxAttempts int) []uint32 {
+	best := append([]uint32(nil), vals...)
+	attempts := 0
+	try := func(cand []uint32) bool {
+		if attempts >= maxAttempts {
+			return false
+		}
+		attempts++
+		ok, _, used := replayOnce(p, cand, sig, o)
+		if ok {
+			best = trimZeros(used)
+			return true
+		}
+		return false
+	}
+	best = trimZeros(best)
+	// 1. delete chunks (drops operations / choices), 2. zero chunks, 3. lower single values
+	for chunk := len(best) / 2; chunk >= 1 && attempts < maxAttempts; chunk /= 2 {
+		for pos := 0; pos+chunk <= len(best) && attempts < maxAttempts; {
+			cand := append(append([]uint32(nil), best[:pos]...), best[pos+chunk:]...)
+			if try(cand) {
+				continue
+			}
+			allZero := true
+			for _, v := range best[pos : pos+chunk] {
+				if v != 0 {
+					allZero = false
+				}
+			}
+			if !allZero {
+				cand = append([]uint32(nil), best...)
+				for i := pos; i < pos+chunk; i++ {
+					cand[i] = 0
+				}
+				if try(cand) {
+					pos += chunk
+					continue
+				}
+			}
+			pos += chunk
+		}
+	}
+	for i := 0; i < len(best) && attempts < maxAttempts; i++ {
+		for i < len(best) && best[i] > 0 && attempts < maxAttempts {
+			cand := append([]uint32(nil), best...)
+			cand[i] = best[i] / 2
+			if !try(cand) {
+				break
+			}
+		}
+	}
+	return best
+}
+
+func trimZeros(v []uint32) []uint32 {
+	n := len(v)
+	for n > 0 && v[n-1] == 0 {
+		n--
+	}
+	return append([]uint32(nil), v[:n]...)
+}
+
+func minimiseAndWrite(p *props.Property, vals []uint32, v world.Violation, o props.Opts, verifDir string, vseed uint64, idx int, rs uint64, tree string, attempts int) string {
+	min := minimise(p, vals, v.Signature, o, attempts)
+	ko := o
+	ko.KeepLog = true
+	ok, out, used := replayOnce(p, min, v.Signature, ko)
+	if !ok {
+		// fall back to the original tape
+		min = vals
+		ok, out, used = replayOnce(p, min, v.Signature, ko)
+		if !ok {
+			fmt.Fprintf(os.Stderr, "verif: violation %s did not reproduce from its own tape (nondeterminism)\n", v.Signature)
+			return ""
+		}
+	}
+	rf := ReplayFile{Property: p.ID, VerifSeed: vseed, RunIndex: idx, RunSeed: rs, Tier: o.Tier, TreeHash: tree, Tape: trimZeros(used), OrigTape: len(vals), LogHash: strconv.FormatUint(out.Stats.LogHash, 16)}
+	for _, vv := range out.Viols {
+		if vv.Signature == v.Signature {
+			rf.Violation = vv
+		}
+	}
+	rf.Decoded = out.Log
+	if len(rf.Decoded) > 400 {
+		rf.Decoded = append(rf.Decoded[:200], rf.Decoded[len(rf.Decoded)-200:]...)
+	}
+	dir := filepath.Join(verifDir, "replays")
+	os.MkdirAll(dir, 0o755)
+	name := fmt.Sprintf("%s-%d-%d.json", p.ID, vseed, idx)
+	path := filepath.Join(dir, name)
+	b, _ := json.MarshalIndent(rf, "", " ")
+	if err := os.WriteFile(path, b, 0o644); err != nil {
+		fmt.Fprintln(os.Stderr, "verif:", err)
+		return ""
+	}
+	return path
+}
+
+// ---------------------------------------------------------------------------------------------
+// replay
+
+func cmdReplay(args []string) int {
+	fs := flag.NewFlagSet("replay", flag.ExitOnError)
+	file := fs.String("file", "", "")
+	verbose := fs.Bool("v", false, "")
+	fs.Parse(args)
+	if *file == "" && fs.NArg() > 0 {
+		*file = fs.Arg(0)
+	}
+	b, err := os.ReadFile(*file)
+	if err != nil {
+		fmt.Fprintln(os.Stderr, err)
+		return 2
+	}
+	var rf ReplayFile
+	if err := json.Unmarshal(b, &rf); err != nil {
+		fmt.Fprintln(os.Stderr, err)
+		return 2
+	}
+	p := props.Registry[rf.Property]
+	if p == nil {
+		fmt.Fprintln(os.Stderr, "unknown property", rf.Property)
+		return 2
+	}
+	debug.SetGCPercent(-1)
+	ok, out, _ := replayOnce(p, rf.Tape, rf.Violation.Signature, props.Opts{Tier: rf.Tier, KeepLog: true})
+	if *verbose {
+		for _, l := range out.Log {
+			fmt.Println(l)
+		}
+	}
+	if ok {
+		h := strconv.FormatUint(out.Stats.LogHash, 16)
+		fmt.Printf("REPRODUCED property=%s signature=%s event_log_hash=%s (recorded %s)\n", rf.Property, rf.Violation.Signature, h, rf.LogHash)
+		for _, v := range out.Viols {
+			fmt.Printf("  %s: %s\n", v.Signature, v.Msg)
+		}
+		if h != rf.LogHash {
+			fmt.Println("NOTE: event log hash differs from the recorded one (the tree changed since the file was written?)")
+		}
+		return 1
+	}
+	fmt.Printf("NOT-REPRODUCED property=%s signature=%s\n", rf.Property, rf.Violation.Signature)
+	for _, v := range out.Viols {
+		fmt.Printf("  other violation: %s: %s\n", v.Signature, v.Msg)
+	}
+	if out.Infra != nil {
+		fmt.Printf("  infra: %s %s\n", out.Infra.Kind, out.Infra.Msg)
+	}
+	return 3
+}
+
+// ---------------------------------------------------------------------------------------------
+// check (parent)
+
+func cmdCheck(args []string) int {
+	fs := flag.NewFlagSet("check", flag.ExitOnError)
+	propID := fs.String("prop", "", "")
+	tier := fs.String("tier", "quick", "")
+	verifDir := fs.String("verif", "/verif", "")
+	workers := fs.Int("workers", 0, "")
+	budgetOverride := fs.Duration("budget", 0, "")
+	treeHash := fs.String("tree", "", "")
+	instr := fs.String("instrumentation", "", "")
+	fs.Parse(args)
+	p := props.Registry[*propID]
+	if p == nil {
+		fmt.Fprintln(os.Stderr, "verif: unknown property", *propID)
+		return 2
+	}
+	seed := uint64(1)
+	if s := os.Getenv("VERIF_SEED"); s != "" {
+		if v, err := strconv.ParseUint(s, 10, 64); err == nil {
+			seed = v
+		}
+	}
+	n := *workers
+	if n == 0 {
+		n = runtime.NumCPU()
+		if n > 16 {
+			n = 16
+		}
+	}
+	budget := time.Duration(p.QuickSec) * time.Second
+	if *tier == "thorough" {
+		budget = time.Duration(p.ThoroughSec) * time.Second
+	}
+	if *budgetOverride > 0 {
+		budget = *budgetOverride
+	}
+	start := time.Now()
+	self, _ := os.Executable()
+	tmp, err := os.MkdirTemp(filepath.Join(*verifDir, ".cache"), "run-")
+	if err != nil {
+		fmt.Fprintln(os.Stderr, "verif:", err)
+		return 2
+	}
+	defer os.RemoveAll(tmp)
+	type wres struct {
+		sum WorkerSummary
+		err error
+		log string
+	}
+	results := make([]wres, n)
+	done := make(chan int, n)
+	for i := 0; i < n; i++ {
+		go func(i int) {
+			out := filepath.Join(tmp, fmt.Sprintf("w%d.json", i))
+			cmd := exec.Command(self, "worker", "-prop", p.ID, "-tier", *tier, "-seed", strconv.FormatUint(seed, 10),
+				"-index", strconv.Itoa(i), "-stride", strconv.Itoa(n), "-budget", budget.String(), "-out", out, "-verif", *verifDir, "-tree", *treeHash)
+			var sb strings.Builder
+			cmd.Stderr = &sb
+			cmd.Stdout = &sb
+			err := cmd.Run()
+			results[i].log = sb.String()
+			if err != nil {
+				results[i].err = fmt.Errorf("worker %d: %v\n%s", i, err, tail(sb.String(), 4000))
+			} else if b, rerr := os.ReadFile(out); rerr != nil {
+				results[i].err = rerr
+			} else if jerr := json.Unmarshal(b, &results[i].sum); jerr != nil {
+				results[i].err = jerr
+			}
+			done <- i
+		}(i)
+	}
+	for i := 0; i < n; i++ {
+		<-done
+	}
+	// aggregate
+	agg := WorkerSummary{Faults: map[string]int{}, Probes: map[string]int{}, Oracle: map[string]int{}}
+	classes := map[string]bool{}
+	traces := map[uint64]bool{}
+	pairs := map[string]bool{}
+	var viols []FoundViolation
+	crashed := 0
+	var crashMsgs []string
+	for _, r := range results {
+		if r.err != nil {
+			crashed++
+			crashMsgs = append(crashMsgs, r.err.Error())
+			continue
+		}
+		s := r.sum
+		agg.Runs += s.Runs
+		agg.SweepRuns += s.SweepRuns
+		agg.SweepTotal = s.SweepTotal
+		agg.Ops += s.Ops
+		agg.Steps += s.Steps
+		agg.Switches += s.Switches
+		agg.SimTimeNs += s.SimTimeNs
+		agg.Nontrivial += s.Nontrivial
+		agg.Infra += s.Infra
+		agg.InfraMsgs = append(agg.InfraMsgs, s.InfraMsgs...)
+		for k, v := range s.Faults {
+			agg.Faults[k] += v
+		}
+		for k, v := range s.Probes {
+			agg.Probes[k] += v
+		}
+		for k, v := range s.Oracle {
+			agg.Oracle[k] += v
+		}
+		for _, c := range s.Classes {
+			classes[c] = true
+		}
+		for _, h := range s.Traces {
+			traces[h] = true
+		}
+		for _, pr := range s.Pairs {
+			pairs[pr] = true
+		}
+		if len(agg.Samples) < 3 {
+			agg.Samples = append(agg.Samples, s.Samples...)
+		}
+		agg.Seeds = append(agg.Seeds, s.Seeds...)
+		viols = append(viols, s.Violations...)
+	}
+	wall := time.Since(start).Seconds()
+	known := loadKnown(*verifDir)
+
+	// verify every violation by replaying its file in a fresh process
+	exit := 0
+	var lines []string
+	seenKnown := map[string]bool{}
+	nviol := 0
+	for _, v := range viols {
+		if v.Replay == "" {
+			fmt.Fprintf(os.Stderr, "verif: violation %s has no replay file (did not reproduce): harness trouble\n", v.Violation.Signature)
+			if exit == 0 {
+				exit = 2
+			}
+			continue
+		}
+		cmd := exec.Command(self, "replay", "-file", v.Replay)
+		outb, _ := cmd.CombinedOutput()
+		code := cmd.ProcessState.ExitCode()
+		if code != 1 {
+			fmt.Fprintf(os.Stderr, "verif: replay of %s in a fresh process did not reproduce (exit %d): harness trouble\n%s\n", v.Replay, code, tail(string(outb), 2000))
+			if exit == 0 {
+				exit = 2
+			}
+			continue
+		}
+		if what, ok := known.match(p.ID, v.Violation.Signature); ok {
+			if !seenKnown[v.Violation.Signature] {
+				seenKnown[v.Violation.Signature] = true
+				lines = append(lines, fmt.Sprintf("KNOWN-FINDING: property=%s %s [signature=%s replay=%s]", p.ID, what, v.Violation.Signature, v.Replay))
+			}
+			continue
+		}
+		nviol++
+		lines = append(lines, fmt.Sprintf("VIOLATION property=%s replay=%s", p.ID, v.Replay))
+		lines = append(lines, fmt.Sprintf("  signature=%s", v.Violation.Signature))
+		lines = append(lines, "  "+strings.ReplaceAll(tail(v.Violation.Msg, 1500), "\n", "\n  "))
+		exit = 1
+	}
+	if crashed > 0 {
+		fmt.Fprintf(os.Stderr, "verif: %d worker(s) failed:\n%s\n", crashed, strings.Join(crashMsgs, "\n"))
+		if exit == 0 {
+			exit = 2
+		}
+	}
+	if agg.Runs == 0 && exit == 0 {
+		fmt.Fprintln(os.Stderr, "verif: no runs executed")
+		exit = 2
+	}
+	if agg.SweepTotal > 0 && agg.SweepRuns < agg.SweepTotal && exit == 0 {
+		fmt.Fprintf(os.Stderr, "verif: sweep incomplete (%d of %d)\n", agg.SweepRuns, agg.SweepTotal)
+		exit = 2
+	}
+	if agg.Infra > 0 {
+		fmt.Fprintf(os.Stderr, "verif: %d run(s) ended in budget/harness trouble (not violations); first:\n%s\n", agg.Infra, strings.Join(first(agg.InfraMsgs, 2), "\n"))
+		if float64(agg.Infra) > 0.02*float64(agg.Runs) && exit == 0 {
+			exit = 2
+		}
+	}
+
+	// evidence
+	ev := map[string]any{
+		"property_id": p.ID,
+		"tier":        *tier,
+		"seed":        seed,
+		"level":       p.Level,
+		"wall_s":      wall,
+		"violations":  nviol,
+		"assumptions": p.Assumptions,
+	}
+	cov := map[string]any{
+		"evaluations":         agg.Runs,
+		"distinct_nontrivial": len(classes),
+		"rule":                p.Rule,
+		"samples":             agg.Samples,
+		"nontrivial_runs":     agg.Nontrivial,
+		"operations":          agg.Ops,
+		"scheduling_steps":    agg.Steps,
+		"context_switches":    agg.Switches,
+		"distinct_interleavings_by_switch_trace_hash": len(traces),
+		"distinct_switch_site_pairs":                  len(pairs),
+		"simulated_time_s":                            float64(agg.SimTimeNs) / 1e9,
+		"runs_per_hour":                               float64(agg.Runs) / wall * 3600,
+		"faults_fired":                                agg.Faults,
+		"probe_hits":                                  agg.Probes,
+		"oracle_evaluations":                          agg.Oracle,
+		"run_seeds_first":                             first64(agg.Seeds, 16),
+		"workers":                                     n,
+		"runs_in_budget_or_harness_trouble":           agg.Infra,
+		"known_findings_hit":                          len(seenKnown),
+	}
+	if agg.SweepTotal > 0 {
+		cov["sweep_cases_total"] = agg.SweepTotal
+		cov["sweep_cases_run"] = agg.SweepRuns
+		cov["exhaustive"] = false
+		cov["exhaustive_part"] = "every enumerated single-fault / case prefix was run once; the remaining runs are sampled"
+	}
+	if len(agg.Samples) == 0 {
+		cov["samples"] = []any{"(no sample recorded)"}
+	}
+	if *instr != "" {
+		if b, err := os.ReadFile(*instr); err == nil {
+			var ins map[string]any
+			if json.Unmarshal(b, &ins) == nil {
+				cov["instrumentation_sites_total"] = ins["total"]
+				cov["real_code_packages"] = ins["packages"]
+			}
+		}
+	}
+	if p.Components != nil {
+		cov["components"] = p.Components
+	}
+	ev["coverage"] = cov
+	eb, _ := json.MarshalIndent(ev, "", " ")
+	evDir := filepath.Join(*verifDir, "evidence")
+	os.MkdirAll(evDir, 0o755)
+	if err := os.WriteFile(filepath.Join(evDir, p.ID+".json"), eb, 0o644); err != nil {
+		fmt.Fprintln(os.Stderr, "verif:", err)
+		if exit == 0 {
+			exit = 2
+		}
+	}
+	for _, l := range lines {
+		fmt.Println(l)
+	}
+	fmt.Printf("%s %s: %d runs (%d sweep), %d nontrivial, %d distinct classes, %d distinct interleavings, %.0f runs/h, %.1fs; exit %d\n",
+		p.ID, *tier, agg.Runs, agg.SweepRuns, agg.Nontrivial, len(classes), len(traces), float64(agg.Runs)/wall*3600, wall, exit)
+	return exit
+}
+
+func tail(s string, n int) string {
+	if len(s) > n {
+		return "..." + s[len(s)-n:]
+	}
+	return s
+}
+
+func first(a []string, n int) []string {
+	if len(a) > n {
+		return a[:n]
+	}
+	return a
+}
+
+func first64(a []uint64, n int) []uint64 {
+	if len(a) > n {
+		return a[:n]
+	}
+	return a
+}
